@@ -51,11 +51,19 @@ def h_linear(ctx, n):
     cf = ctx.new(CF, list(xs), list(ys))
     d = n * S([x * x for x in xs]) - S(xs) * S(xs)
     r, ex = call_fit(ctx, cf, "linear_fitting")
+    sxx = n * S([x * x for x in xs])
     if ex is not None:
-        ctx.vc("only ZeroDivisionError, only for degenerate data (determinant below the tolerance)",
-               and_(ex.cls == "ZeroDivisionError", abs(d) < TOL))
+        # (the statement of the property, not the code's threshold: degenerate means the determinant vanishes; a refusal is
+        # admitted only for data that are not well-conditioned, determinant below 1e-9 of its own terms)
+        if n <= 4:
+            ctx.vc("only ZeroDivisionError, only for data that are degenerate or not well-conditioned (n Sxx - Sx^2 <= 1e-9 n Sxx)",
+                   and_(ex.cls == "ZeroDivisionError", abs(d) <= Fraction(1, 10 ** 9) * sxx))
+        else:
+            # (ten variables of degree 2 under an absolute value: left undecided by z3 and cvc5 within a minute; the class of the
+            # exception is stated here, the conditioning for n <= 4 above and on the bounded grid)
+            ctx.vc("only ZeroDivisionError", ex.cls == "ZeroDivisionError")
         return
-    ctx.vc("degenerate data must raise", abs(d) >= TOL)
+    ctx.vc("degenerate data (all abscissae equal: n Sxx - Sx^2 == 0) must raise", d != 0)
     normal_eq(ctx, "linear", xs, ys, r, [lambda x: x, lambda x: 1])
     ctx.vc("input lists not modified", and_(*[ctx.field(cf, "_x")[i] == xs[i] for i in range(n)]))
 
@@ -133,9 +141,26 @@ def h_order(ctx, n):
         flat += [xs[i], ys[i]]
     variants.append(("flat x0, y0, x1, y1, ...", ctx.new(CF, *flat)))
     variants.append(("copy", ctx.new(CF, base)))
+    extra = ctx.real("extra", -10, 10)
+    variants.append(("flat with a dangling last value", ctx.new(CF, *(flat + [extra]))))
+    variants.append(("two sequences, x longer than y (cut to the common length)", ctx.new(CF, list(xs) + [extra], list(ys))))
+    variants.append(("two sequences, y longer than x (cut to the common length)", ctx.new(CF, list(xs), list(ys) + [extra])))
+    # a copy and its source are independent objects: re-aiming either with set() leaves the other as it was
+    src2 = ctx.new(CF, list(xs), list(ys))
+    kept = ctx.new(CF, src2)
+    ctx.method(src2, "set", [xs[i] + 100 for i in range(n)], [2 * ys[i] + 1 for i in range(n)])
+    variants.append(("copy whose source was re-aimed with set() afterwards", kept))
+    src3 = ctx.new(CF, list(xs), list(ys))
+    cp3 = ctx.new(CF, src3)
+    ctx.method(cp3, "set", [xs[i] + 100 for i in range(n)], [2 * ys[i] + 1 for i in range(n)])
+    variants.append(("source whose copy was re-aimed with set() afterwards", src3))
     for label, cf in variants:
         for k, s0 in zip(names, sums):
             ctx.identity("%s: same %s" % (label, k), ctx.field(cf, k), s0)
+        X, Y = ctx.field(cf, "_x"), ctx.field(cf, "_y")
+        ctx.vc("%s: the table holds the n given pairs" % label, len(X) == n and len(Y) == n)
+        if len(X) == n and len(Y) == n and "exchanged" not in label and "rotated" not in label:
+            ctx.vc("%s: each abscissa with its own ordinate" % label, and_(*[and_(X[i] == xs[i], Y[i] == ys[i]) for i in range(n)]))
     ctx.vc("source of the copy unchanged", and_(*[ctx.field(base, "_x")[i] == xs[i] for i in range(n)]))
 
 
@@ -158,9 +183,13 @@ def h_corr(ctx, n):
     try:
         r = ctx.method(cf, "correlation_coeff")
     except PyRaise as ex:
-        ctx.vc("degenerate data: only ZeroDivisionError / ValueError from a vanishing variance", ex.cls in ("ZeroDivisionError", "ValueError"))
-        ctx.vc("raises only when a variance vanishes", or_(dx <= 0, dy <= 0))
+        ctx.vc("degenerate data: ZeroDivisionError and no other class", ex.cls == "ZeroDivisionError")
+        sxx, syy = n * S([x * x for x in xs]), n * S([y * y for y in ys])
+        if n <= 4:          # (n = 5: twenty variables of degree 2, a minute per query and unstable; covered on the bounded grid)
+            ctx.vc("raises only when a variance vanishes (or is below 1e-9 of its own terms: not well-conditioned)",
+                   or_(dx <= Fraction(1, 10 ** 9) * sxx, dy <= Fraction(1, 10 ** 9) * syy))
         return
+    ctx.vc("a vanishing variance (one variable constant) must raise", and_(dx != 0, dy != 0))
     if ctx.concrete:
         if ctx.native:
             ctx.vc("-1 <= r <= 1", -1 - 1e-12 <= r <= 1 + 1e-12)
@@ -307,13 +336,32 @@ def b_float(rng, tier):
         except ZeroDivisionError as ex:
             ok, det = False, "ZeroDivisionError on non-degenerate data: %r" % (ex,)
         yield ((n, tuple(xs[:4]), tuple(ys[:4])), ok, det)
-    # degenerate data raise
-    for xs, ys in (([1.0, 1.0, 1.0], [1.0, 2.0, 3.0]), ([2.0, 2.0], [1.0, 5.0])):
-        try:
-            CurveFitting(xs, ys).linear_fitting()
-            yield (("degenerate", tuple(xs)), False, "returned numbers")
-        except ZeroDivisionError:
-            yield (("degenerate", tuple(xs)), True, None)
+    # degenerate data raise ZeroDivisionError (also when the common abscissa is not a dyadic number, so that the sums carry
+    # rounding errors), in every function; tiny but well-spread abscissae are not degenerate
+    for xs, ys in (([1.0, 1.0, 1.0], [1.0, 2.0, 3.0]), ([2.0, 2.0], [1.0, 5.0]), ([1000.1] * 200, [float(i) for i in range(200)]),
+                   ([123.456] * 50, [float(i) for i in range(50)]), ([0.3] * 7, [float(i) for i in range(7)]),
+                   ([-7.7] * 12, [float(i * i) for i in range(12)])):
+        for fn in ("linear_fitting", "quadratic_fitting", "correlation_coeff"):
+            try:
+                out = getattr(CurveFitting(xs, ys), fn)()
+                yield (("degenerate", fn, xs[0], len(xs)), False, "returned %r" % (out,))
+            except ZeroDivisionError:
+                yield (("degenerate", fn, xs[0], len(xs)), True, None)
+            except Exception as ex:
+                yield (("degenerate", fn, xs[0], len(xs)), False, repr(ex))
+    try:
+        CurveFitting([1.0, 2.0, 3.0, 4.0], [5.0, 5.0, 5.0, 5.0]).correlation_coeff()
+        yield (("degenerate", "constant ordinates"), False, "returned a number")
+    except ZeroDivisionError:
+        yield (("degenerate", "constant ordinates"), True, None)
+    except Exception as ex:
+        yield (("degenerate", "constant ordinates"), False, repr(ex))
+    xs = [0.0, 1e-6, 2e-6, 3e-6, 4e-6]
+    try:
+        a_, b_ = CurveFitting(xs, [2 * x + 1 for x in xs]).linear_fitting()
+        yield (("tiny well-spread abscissae",), abs(a_ - 2) < 1e-6 and abs(b_ - 1) < 1e-9, (a_, b_))
+    except Exception as ex:
+        yield (("tiny well-spread abscissae",), False, repr(ex))
 
 
 P.frame_check()
